@@ -92,3 +92,15 @@ func (o *Options) SetFormatOptions(key, opts interface{}) {
 	}
 	o.formatOptions[keyVal] = opts
 }
+
+// copy returns a new options set with the same values. Each writer works on
+// its own copy so that configuring it never changes the library defaults or
+// another writer.
+func (o *Options) copy() *Options {
+	no := *o
+	no.formatOptions = map[string]interface{}{}
+	for k, v := range o.formatOptions {
+		no.formatOptions[k] = v
+	}
+	return &no
+}
